@@ -347,6 +347,12 @@ def apply_event(heap, e, flavour, maxobj, scratch=None, variant=0):
             buf.seek(0)
             new = R.load_rdm(buf, file_type=ft)
     elif op == 'to_df':
+        if variant % 2 == 1 and ob.dissimilarities.ndim == 2:
+            # memory-layout flavour: an object holding the SAME values in Fortran order (what column selection or a
+            # transposed source array produce) must export the same table; the live object itself is left alone
+            twin = ob.copy()
+            twin.dissimilarities = np.asfortranarray(twin.dissimilarities)
+            return ('df', twin.to_df(), o)
         return ('df', ob.to_df(), o)
     elif op == 'drop':
         del heap[o]
